@@ -90,6 +90,7 @@ func (f *g2lFn) emit() string {
 		lines = f.compileBody("Id")
 	}
 	monad := f.monad
+	sort.Strings(f.absUsed)
 	ps := f.params()
 	out := &strings.Builder{}
 	absBinder := ""
